@@ -80,6 +80,19 @@ def run(chk, replay=None):
         n = rng.choice([2, 2, 3, 5, 12, 60, 200])
         hot = [rng.randrange(NB) for _ in range(rng.randint(1, 6))]
         bins = [rng.choice(hot) if rng.random() < 0.6 else rng.randrange(NB) for _ in range(n)]
+        if t in (6, 7, 11):
+            # the smallest sample the W-test is defined for: exactly ONE log-rate difference distinct from the null median (one
+            # exchanged pair of dyadic rates, so the totals are equal and the median is exactly 0; the other events sit in bins
+            # the two forecasts agree on)
+            style = 'dyadic'
+            ks = rng.sample(range(3, 400), NB)
+            a = [k / 64.0 for k in ks]
+            b = list(a)
+            i_, j_ = 0, NB - 1
+            b[i_], b[j_] = a[j_], a[i_]
+            others = [q for q in range(1, NB - 1)]
+            n = [3, 2, 5][(t - 6) % 3] if t != 11 else 4
+            bins = [i_ if t != 7 else j_] + [rng.choice(others) for _ in range(n - 1)]
         an, ad = rng.choice([(1, 100), (1, 20), (1, 2)])
         scale = (t % 5 == 0)
         w = [[0] * nb for _ in range(nc)]
